@@ -200,6 +200,13 @@ def run(tier, seed):
         nops = 150 if tier == "quick" else 2500
         nkill = 25 if tier == "quick" else 300
         scen = []
+        # one host name pinned on several ports, revoked as a whole (and cleared, and replaced by an import): an operation over
+        # several rows is one transaction - interrupted anywhere, the store is as before or as after
+        for h in ("multi.example", "fe80::1%eth0", "A.B"):
+            st = [[h, 1965 + j, cs[j % len(cs)]["fp"], "M%d" % j] for j in range(3)] + [["other.example", 1965, cs[0]["fp"], "O"]]
+            scen.append((st, ("revoke_host", h)))
+            scen.append((st, ("clear",)))
+            scen.append((st, ("revoke", h, 1966)))
         for _ in range(nops):
             st = gen_store(rng, cs)
             scen.append((st, gen_op(rng, cs, st)))
